@@ -28,7 +28,7 @@ REQUIRED_REACH = {"transforms/_track_scales.py": ["Metrics.from_tensor", "ScaleT
                                                   "ScaleTrackingInterpreter.run_node", "ScaleTrackingBackend.__call__", "track_scales", "_get_tracking_meta"],
                   "utils.py": ["ScaleTracker.forward", "ScaleTracker.backward", "ScaleTrackingInterpreter.run_node", "_record_scales", "analyse_module"]}
 MIN_NONTRIVIAL = {"quick": 90, "thorough": 4000}
-FORMS = ["embedding", "nn_gelu", "conv1d", "bias_kw"]
+FORMS = ["embedding", "nn_gelu", "conv1d", "bias_kw", "inplace_fn"]
 
 
 def gen_cases(tier: str, seed: int) -> List[Dict[str, Any]]:
@@ -406,7 +406,7 @@ def _max_fanout(prog) -> int:
             v = alias[v]
         return v
     for o in prog["ops"]:
-        if (o["op"] == "dropout" and (o["kw"].get("p") == 0.0 or not o["kw"].get("training", True))) or o["op"] == "iadd":
+        if (o["op"] == "dropout" and (o["kw"].get("p") == 0.0 or not o["kw"].get("training", True))) or o["op"] in ("iadd", "relu_inplace_fn"):
             alias[o["out"]] = o["in"][0]
     cnt: Dict[str, int] = {}
     for o in prog["ops"]:
